@@ -182,7 +182,9 @@ func (c *monC18) After(m *Machine, s *Step) *Violation {
 	}
 
 	// (3) a session obtained through a one-time credential implies its consumption was saved
-	if loggedIn || (r.SessAfter["totp_pending"] != r.SessBefore["totp_pending"] && r.SessAfter["totp_pending"] != "") || (r.SessAfter["sms_pending"] != r.SessBefore["sms_pending"] && r.SessAfter["sms_pending"] != "") {
+	// (not when the remember middleware issued the session on the way into this request)
+	byCookie := loggedIn && before == "" && m.rotationOwner(s) == after
+	if (loggedIn && !byCookie) || (r.SessAfter["totp_pending"] != r.SessBefore["totp_pending"] && r.SessAfter["totp_pending"] != "") || (r.SessAfter["sms_pending"] != r.SessBefore["sms_pending"] && r.SessAfter["sms_pending"] != "") {
 		who := after
 		if !loggedIn {
 			who = r.SessAfter["totp_pending"] + r.SessAfter["sms_pending"]
